@@ -98,7 +98,7 @@ func runWith(body func(t *rapid.T, r *Rec), f func(prop func(*rapid.T)) rapid.Ve
 func c04Units(tier string, seed int64) []Unit {
 	var units []Unit
 	quick := tier != "thorough"
-	for _, p := range AllProgs() {
+	for _, p := range append(AllProgs(), FailingProgs()...) {
 		if !(p.Has("rej") || p.Has("machine") || p.Name == "Deferred(tree)" || p.Name == "Float64Range(0.5,1.5)" || p.Name == "Permutation(3)" || p.Name == "Ptr(Int8(),true)" || p.Name == "Make[made]") {
 			continue
 		}
@@ -194,7 +194,7 @@ func c04Units(tier string, seed int64) []Unit {
 	}
 	// seed determinism and history independence
 	units = append(units, Unit{Name: "C04/seed-determinism", Run: func(c *Ctx) {
-		progs := AllProgs()
+		progs := append(AllProgs(), FailingProgs()...)
 		nseeds := 40
 		if !quick {
 			nseeds = 400
